@@ -17,6 +17,8 @@ RULES = {
     "the fault-free run, with send() swallowing or raising OSError afterwards; WSGI - the server closes the iterable after k items for "
     "every k; streaming producers raising at a generated step. evaluations counts gateway runs; non-trivial = a fault point strictly "
     "inside the event sequence, or a fault-free run of a streaming/file/error-path recipe",
+    "filegrid": "enumerated product for FileResponse: (size, chunk) pairs x every Range shape (single, suffix, open, multi, unsatisfiable, malformed, empty) x GET/HEAD x "
+    "If-Range absent/stale x zero-copy extension offered or not, each with every close/disconnect prefix as above",
     "statuses": "exhaustive: every status code 100..599 through the empty, plain and redirect response on both interfaces",
 }
 ASSUMPTIONS = [
@@ -59,7 +61,8 @@ def request_for(case):
         headers.append(["Range", rq["range"]])
     if rq.get("if_range") is not None:
         headers.append(["If-Range", rq["if_range"]])
-    return gw.areq(method=rq.get("method", "GET"), path="/r", headers=headers)
+    ext = {"http.response.zerocopysend": {}} if rq.get("zerocopy") else None
+    return gw.areq(method=rq.get("method", "GET"), path="/r", headers=headers, extensions=ext)
 
 
 def wsgi_run(case, recipe, close_after=None):
@@ -209,7 +212,7 @@ def oracle_status(case) -> Result:
     return r
 
 
-SUBS = {"responses": oracle, "statuses": oracle_status}
+SUBS = {"responses": oracle, "statuses": oracle_status, "filegrid": oracle}
 
 
 @st.composite
@@ -220,12 +223,33 @@ def response_case(draw):
         rq["range"] = draw(st.sampled_from(gen.RANGE_HEADERS))
         if draw(st.integers(0, 2)) == 0:
             rq["if_range"] = draw(st.sampled_from(['"stale-etag"', "Wed, 21 Oct 2015 07:28:00 GMT", "garbage", ""]))
+        if draw(st.integers(0, 3)) == 0:
+            rq["zerocopy"] = True
     return {"response": recipe, "request": rq}
+
+
+def file_grid(quick):
+    """Deterministic product for the file response: every Range shape x method x If-Range x zero-copy
+    extension over a few (size, chunk) pairs; each case still gets all its close/disconnect prefixes."""
+    shapes = [(0, 3), (1, 1), (5, 1), (5, 3), (12, 4096)] + ([] if quick else [(64, 3), (200, 64), (200, 1)])
+    for size, chunk in shapes:
+        for rng in gen.RANGE_HEADERS[1:] + ["bytes=0-0,2-2,4-4", "bytes=4-,0-1"]:
+            for method in ("GET", "HEAD"):
+                for if_range in (None, '"stale-etag"'):
+                    if if_range is not None and rng is None:
+                        continue
+                    for zc in (False, True):
+                        rq = {"method": method, "range": rng, "zerocopy": zc}
+                        if if_range is not None:
+                            rq["if_range"] = if_range
+                        yield {"response": {"kind": "file", "name": "f.txt", "size": size, "chunk": chunk}, "request": rq}
 
 
 def run(rec, only=None):
     quick = rec.tier == "quick"
     core.drive_cases(rec, "statuses", ({"status": s} for s in range(100, 600, 7 if quick else 1)), oracle_status)
     rec.exhaustive["statuses"] = not quick
+    core.drive_cases(rec, "filegrid", file_grid(quick), oracle)
+    rec.exhaustive["filegrid"] = True
     core.drive_hypothesis(rec, "responses", response_case(), oracle, 1500 if quick else 30000)
     rec.exhaustive["responses"] = False
